@@ -14,10 +14,13 @@ HEADER = ["program p",
           f"  integer, dimension({minif.M_LO}:{minif.M_HI},{minif.M_LO}:{minif.M_HI}) :: m"]
 
 
-def gen_init(rng):
+def gen_init(rng, dvals=(0, 1, 2)):
+    """`dvals`: runtime values of the variables named d_i, d1_i, ... (the `dside` flavour uses 1, -1, 2 so that a
+    one-sided use of such a variable in a subscript is a REAL loop-carried dependence)"""
+    dv = list(dvals)
     out = [f"  n = {rng.randint(0, 4)}", f"  k = {rng.randint(0, 3)}", f"  t = {rng.randint(0, 5)}",
-           f"  s0 = {rng.randint(0, 5)}", f"  d_i = {rng.randint(0, 2)}", f"  d1_i = {rng.randint(0, 2)}",
-           f"  d2_i = {rng.randint(0, 2)}", f"  d_i_1 = {rng.randint(0, 2)}"]
+           f"  s0 = {rng.randint(0, 5)}", f"  d_i = {rng.choice(dv)}", f"  d1_i = {rng.choice(dv)}",
+           f"  d2_i = {rng.choice(dv)}", f"  d_i_1 = {rng.choice(dv)}"]
     for arr in ARR1:
         kk, cc, mm = rng.randint(1, 7), rng.randint(0, 9), rng.choice([3, 5, 7, 11])
         if arr == "idx":
@@ -51,7 +54,7 @@ class LoopGen:
     def __init__(self, rng, flavour=None):
         self.rng = rng
         self.flavour = flavour or rng.choice(["affine", "affine", "div", "mod", "idx", "dnames", "nest", "scalar",
-                                              "scalar", "stale", "mixed", "mixed"])
+                                              "scalar", "stale", "mixed", "mixed", "dside", "dside"])
         self.nest = self.flavour == "nest" or (self.flavour in ("mixed", "scalar") and rng.random() < 0.3)
 
     def pool(self, inner):
@@ -140,11 +143,42 @@ class LoopGen:
         return [f"{ind}if ({cond}) then", f"{ind}  {s} = 1", f"{ind}endif", f"{ind}if ({cond}) then",
                 f"{ind}  c(i) = {s}", f"{ind}endif"]
 
+    def dside_sub(self, with_d):
+        """`c*i + e` where e uses the names d_i, d1_i, d2_i with coefficients +-1, +-2 (or not at all)"""
+        r = self.rng
+        base = r.choice(["i", "i", "i", "2*i", "i+1", "-i"])
+        if not with_d:
+            return base
+        out = base
+        for nm in r.sample(["d_i", "d1_i", "d2_i"], r.choice([1, 1, 1, 2])):
+            c = r.choice([1, -1, 2, -2])
+            out += ("+" if c > 0 else "-") + (nm if abs(c) == 1 else f"{abs(c)}*{nm}")
+        return out
+
+    def dside_stmt(self, ind):
+        """array update whose write / read subscripts use a d_<loopvar> name on ONE side only, or on both"""
+        r = self.rng
+        arr = r.choice(["a", "a", "b"])
+        side = r.choice(["write", "write", "read", "read", "both", "bothsame"])
+        if side == "bothsame":
+            w = self.dside_sub(True)
+            rd = w
+        else:
+            w = self.dside_sub(side in ("write", "both"))
+            rd = self.dside_sub(side in ("read", "both"))
+        rhs = f"{arr}({rd}) + 1"
+        if r.random() < 0.3:
+            rhs += f" + {r.choice(['c(i)', 'n', 'd_i'])}"
+        return [f"{ind}{arr}({w}) = {rhs}"]
+
     def stmts(self, inner, ind, n):
         r = self.rng
         out = []
         for _ in range(n):
             x = r.random()
+            if self.flavour == "dside" and x < 0.75:
+                out += self.dside_stmt(ind)
+                continue
             if self.flavour == "stale" and r.random() < 0.5:
                 s = r.choice(["t", "s0"])
                 out += [f"{ind}{s} = b(i)", f"{ind}a(i+{s}) = 1" if r.random() < 0.6 else f"{ind}a(i+{s}) = a(i+{s}) + c(i)"]
@@ -186,7 +220,8 @@ class LoopGen:
 
 def gen_source(rng, flavour=None):
     g = LoopGen(rng, flavour)
-    return "\n".join(HEADER + gen_init(rng) + g.loop() + ["end program p"]) + "\n", g.flavour
+    init = gen_init(rng, (1, -1, 2) if g.flavour == "dside" else (0, 1, 2))
+    return "\n".join(HEADER + init + g.loop() + ["end program p"]) + "\n", g.flavour
 
 
 # ---- export -----------------------------------------------------------------
